@@ -21,6 +21,7 @@ type Features struct {
 	PinTypes                                            bool // every metric gets a write with an operand of concrete type
 	// constructs the reference does not define (used by C04/C23 only, never with R)
 	MixedWrites, StringNumberCompare, NonBoolCond, Unary bool
+	BoolInArith                                          bool // a comparison used as an integer operand (rejected by the pinned compiler)
 	NoUnaryOnBool                                        bool // with Unary: ~ only on Int operands
 	NoFloatIntoInt                                       bool // with MixedWrites: only Int values into Float metrics
 	TimeBuiltins                                         bool
@@ -345,6 +346,10 @@ func (g *G) mread(m *Metric, d int) *Expr {
 func (g *G) genInt(d int) *Expr {
 	if d >= g.F.MaxExprDepth {
 		return g.intLeaf(d)
+	}
+	if g.F.BoolInArith && d > 0 && g.inKey == 0 && g.chance("boolinarith", 2) {
+		g.class("bool-in-arithmetic")
+		return &Expr{Op: "paren", Ty: TInt, Args: []*Expr{g.genCmp(d + 1)}}
 	}
 	switch g.intn("intkind", 12) {
 	case 0, 1, 2, 3:
